@@ -27,7 +27,11 @@ props! {
     "C03" => c03,
     "C04" => c04,
     "C05" => c05,
+    "C06" => c06,
+    "C07" => c07,
     "C12" => c12,
     "C13" => c13,
     "C14" => c14,
+    "C19" => c19,
+    "C20" => c20,
 }
